@@ -1055,6 +1055,16 @@ struct static_array<T, ::boost::multi::dimensionality_type{0}, Alloc>  // NOLINT
 		if(this == &other) {
 			return *this;
 		}  // lints (cert-oop54-cpp) : handle self-assignment properly
+		if constexpr(multi::allocator_traits<allocator_type>::propagate_on_container_copy_assignment::value) {
+			if(this->alloc() != other.alloc()) {  // a block cannot change allocator: the copy is built under other's, the old element and block leave with tmp under the old one
+				static_array tmp(other, other.alloc());
+				using std::swap;
+				swap(this->alloc(), tmp.alloc());
+				swap(this->base_, tmp.base_);
+				return *this;
+			}
+			this->alloc() = other.alloc();  // compares equal: the block stays valid
+		}
 		adl_copy_n(other.data_elements(), other.num_elements(), this->data_elements());
 		return *this;
 	}
